@@ -52,6 +52,10 @@ RULE = ("workload 1 (stress): rounds of 4-8 threads x 40-60 requests over one ba
         "under its own lock. Oracle (sequential counter model): generated ids pairwise distinct, their sequence "
         "numbers exactly 0..N-1, caller-supplied ids sent unchanged exactly once and not counted. Non-trivial = "
         "round whose order of threads by sequence number differs from all earlier rounds, or offset scenario in "
+        "Workload 5: histories of 60 requests through the connection's OWN urllib opener (only the socket level is replaced by a handler "
+        "that records every hop and answers /moved... with a redirect): every hop of a request carries that request's id, "
+        "the caller's own ids (text or bytes) unchanged. Workload 6: one scenario per shard in which a thread is held for 6.5 s "
+        "between reading and advancing the counter; calls refused before anything is sent take no number. "
         "which B really ran inside A's gap; distinct by that order / (offset, variant).")
 ASSUMPTIONS = ["CPython with the GIL: pre-emption happens between bytecode instructions; INSTRUCTION-level steering "
                "covers every pre-emption point of the id generator with one forced pre-emption",
